@@ -341,7 +341,7 @@ pub fn check_session(sess: &Session, rep: &mut Report, case: (u64, u64), verbose
 }
 
 pub fn gen_unrelated(rng: &mut Rng) -> Vec<Cell> {
-    let mut g = gen::Gen::new(rng, Opts { output: false, callcc: false, ..Opts::default() });
+    let mut g = gen::Gen::new(rng, Opts { output: false, callcc: false, wrappable_builtins: false, ..Opts::default() });
     g.prefix = "zz".into();
     let n = 1 + g.rng.usize(4);
     (0..n).map(|_| if g.rng.bool() { g.define_proc(None) } else { g.define_data() }).collect()
